@@ -225,6 +225,26 @@ def check(rep, tier, seed):
                      stdin=None if kind.startswith("bcf") else job[1].decode(),
                      observed={"rc": rc, "stdout": so.decode(errors="replace")[:300], "stderr": stderr[-500:]},
                      expected=exp, detail="sfs create on a one-record call set: " + why)
+    # the error must NAME the site: a non-diploid genotype on the second of two contigs, at an unrelated position, in every
+    # container (also a BCF whose contig dictionary numbers the contigs against their listing order, and minor version 1)
+    djobs, dwant = [], []
+    for g in ("0", "1", "0/1/1", "1|1|0"):
+        for (c1, c2, pbad) in (("chr1", "chr2", 7), ("chr2", "chr1", 123456), ("chr1", "chr1", 3)):
+            recs_d = [["0/1", "0/0"], ["1/1", "0/1"], [g, "0/1"], ["0/0", "0/0"]]
+            ctgs, poss = [c1, c1, c2, c2], [5, 9, pbad, pbad + 4]
+            v = render_vcf(["s1", "s2"], recs_d, contigs=ctgs, positions=poss)
+            for name, data in (("vcf", v), ("vcf.gz", bgzf_compress(v)), ("bcf", bcf_encode_hts(v)), ("bcf-idx-reversed", bcf_encode_hts(v, idx_reversed=True)),
+                               ("bcf-v2.1-bgzf", bgzf_compress(bcf_encode_hts(v, minor=1, idx_reversed=True)))):
+                djobs.append((["create"], data)); dwant.append(("'%s:%d'" % (c2, pbad), name, g))
+                djobs.append((["create", "-s", "s2", "--strict"], data.replace(b"0/0\t0/0", b"0/0\t./.") if name == "vcf" else data)); dwant.append((None, name, g))
+    for job, (want, name, g), (rc, so, se) in zip(djobs, dwant, run_cli_many(djobs)):
+        if want is None:
+            continue
+        rep.count("diagnostic-names-site", "%s GT=%s at %s" % (name, g, want), True)
+        if rc == 0 or so != b"" or want.encode() not in se or is_panic(rc, se):
+            rep.fail(kind="property-oracle", cls="classify-cli:diagnostic:" + name, case="GT %s at %s as %s" % (g, want, name), argv=["sfs", "create"],
+                     stdin_hex=job[1].hex()[:20000], observed={"rc": rc, "stderr": se.decode(errors="replace")[-300:]}, expected="failure naming %s" % want,
+                     detail="a non-diploid genotype in a selected sample must fail the run with an error naming the contig and position of the record")
     rep.assumptions += ["a whole GT field '.' is the VCF missing value (decoded as None by noodles): classified Missing",
                         "noodles decodes the GT text/BCF encoding; the classification from decoded alleles onward is modelled"]
 
